@@ -223,7 +223,7 @@ func lineCase(iters, num string, tag string, withSpec bool) {
 	if sok {
 		sl = canon(math.Float64frombits(sb)) + ":" + map[bool]string{false: "ok", true: "range"}[sovf] + ":" + strconv.Itoa(b01(strunc))
 	}
-	hx.Printf("obs %d sl=%s chk=ok\n", myid, sl)
+	hx.Printf("obs %d sl=%s chk=ok pfm=%s:%s ram=%s:%s\n", myid, sl, canon(pf), errKind(pferr), canon(ra), errKind(raerr))
 
 	if withSpec {
 		srd := strings.Replace(strings.Replace(rd, "err:iters-syntax", "err:iters", 1), "err:iters-range", "err:iters", 1)
